@@ -346,6 +346,20 @@ def check_subfaces_order(repo, res):
             size_minus_1 = isinstance(r, ast.BinOp) and isinstance(r.op, ast.Sub) and isinstance(r.right, ast.Constant) and r.right.value == 1 and ((isinstance(r.left, ast.Name) and r.left.id in sizes) or (isinstance(r.left, ast.Call) and getattr(r.left.func, "id", None) == "len"))
             if size_minus_1 and isinstance(n.args[0], ast.Name) and n.args[0].id == f.params[1]:
                 ok = True
+    # ... of the simplex AS GIVEN: the parameter is not rebound (sorted / set / reversed would move the vertices)
+    pname = f.params[1]
+    def moves_vertices(v):
+        for c in ast.walk(v):
+            if isinstance(c, ast.Call) and getattr(c.func, "id", getattr(c.func, "attr", None)) in ("sorted", "set", "frozenset", "reversed", "unique", "shuffle", "sample"):
+                return True
+            if isinstance(c, ast.Subscript) and isinstance(c.slice, ast.Slice) and c.slice.step is not None:
+                return True
+        return False
+
+    rebinds = [st for st in ast.walk(f.node) if isinstance(st, (ast.Assign, ast.AugAssign)) and any(isinstance(t, ast.Name) and t.id == pname for tt in (st.targets if isinstance(st, ast.Assign) else [st.target]) for t in ast.walk(tt)) and moves_vertices(st.value)]
+    rebinds += [c for c in ast.walk(f.node) if isinstance(c, ast.Call) and isinstance(c.func, ast.Attribute) and c.func.attr in ("sort", "reverse") and isinstance(c.func.value, ast.Name) and c.func.value.id == pname]
+    if rebinds:
+        ok = False
     res.inst("B-FACE", "_subfaces(all=False) yields combinations(simplex, size - 1) of the simplex in the given order", ok)
     if not ok:
         res.add(mk_finding(PROP, "B-FACE", f, f.node, "_subfaces(all=False) no longer yields the codimension-1 faces as combinations(simplex, size - 1) in the order of the (sorted) simplex; the sign function of boundary_matrix assumes the i-th face omits vertex order - i", role="_subfaces"))
